@@ -1233,6 +1233,8 @@ def oracle_C07(lines, impl):
         p0, v0, _ = [h2f(x) for x in ct[1].split("/")]
         p1, v1, _ = [h2f(x) for x in ct[2].split("/")]
         vmax = abs(h2f(ct[3].split(":")[1])); amax = abs(h2f(ct[4].split(":")[1]))
+        if toks[3] == "?" or toks[4] == "?":
+            continue        # private fields not observable (changed Debug output, degenerate profile): nothing to check numerically
         a = h2f(toks[3].split(":")[1])
         parsed[k] = toks
         if any(x != x or abs(x) == float("inf") for x in (p0, v0, p1, v1, vmax, amax, a)):
